@@ -1,10 +1,10 @@
 #!/bin/bash
-# onemut.sh <mutant-id> [props…]  — evaluate one sweep mutant (from /tmp/msweep/m) with the given checks (default all), in memory.
+# onemut.sh <mutant-id> [props…]  — evaluate one sweep mutant (from ${MSWEEP:-/tmp/msweep}/m) with the given checks (default all), in memory.
 id=$1; shift
-f=$(python3 -c "import json;print([m['file'] for m in json.load(open('/tmp/msweep/report.json')) if m['id']=='$id'][0])")
+f=$(python3 -c "import json;print([m['file'] for m in json.load(open('${MSWEEP:-/tmp/msweep}/report.json')) if m['id']=='$id'][0])")
 mkdir -p /tmp/vr_one; cp /verif/known_findings.txt /verif/properties.jsonl /tmp/vr_one/
 if [ $# -eq 0 ]; then set -- all; fi
 for p in "$@"; do
-  if [ "$p" = all ]; then VERIF_ROOT=/tmp/vr_one VERIF_OVERLAY="$f=/tmp/msweep/m/$id.go.txt" ${VERIF_BIN:-/verif/bin/asherah-verif} all 2>&1 | grep -v "^ok\|^PASS" | head -40
-  else VERIF_ROOT=/tmp/vr_one VERIF_OVERLAY="$f=/tmp/msweep/m/$id.go.txt" ${VERIF_BIN:-/verif/bin/asherah-verif} check $p 2>&1 | tail -15; fi
+  if [ "$p" = all ]; then VERIF_ROOT=/tmp/vr_one VERIF_OVERLAY="$f=${MSWEEP:-/tmp/msweep}/m/$id.go.txt" ${VERIF_BIN:-/verif/bin/asherah-verif} all 2>&1 | grep -v "^ok\|^PASS" | head -40
+  else VERIF_ROOT=/tmp/vr_one VERIF_OVERLAY="$f=${MSWEEP:-/tmp/msweep}/m/$id.go.txt" ${VERIF_BIN:-/verif/bin/asherah-verif} check $p 2>&1 | tail -15; fi
 done
